@@ -69,8 +69,8 @@ class Case:
         nb, nvb = sp["batches"], (1 if sp["val"] else 0)
 
         def data(prefix, n):
-            if mode is not None and sp["val"] and prefix == "t":
-                # evaluator + validation: the training batches are concrete, so that the updated parameters are numbers and
+            if mode is not None and (sp["val"] or sp["epochs"] > 1) and prefix == "t":
+                # evaluator + validation (or a second epoch): the training batches are concrete, so that the updated parameters are numbers and
                 # the validation predictions stay linear in the symbolic validation data (decidable path coverage)
                 X = env.const(np.array([[0.5, -1.0], [1.5, 0.25], [-0.75, 0.5], [0.25, 1.25]][:n * bs]), np.float32)
             else:
@@ -124,7 +124,14 @@ class Case:
         opt.step, opt.zero_grad = step, zero
         evaluator = None
         if mode is not None:
-            evaluator = Evaluator(mode=mode)
+            if sp.get("metric_callbacks"):
+                # user metrics returned by the evaluator's callbacks are metrics like any other: one entry per epoch,
+                # val_ prefix for validation
+                def user_metric(y_true, y_pred):
+                    return [("error_rate", np.float64((y_true != y_pred).sum() / len(y_true)))]
+                evaluator = Evaluator(mode=mode, epoch_callback=user_metric, step_callback=user_metric)
+            else:
+                evaluator = Evaluator(mode=mode)
             orig_ev = evaluator.step
 
             def ev_step(labels, outputs, prefix=None):
@@ -187,9 +194,10 @@ class Case:
                  all((not any(e[2])) and (not e[3]) for e in val_losses))
         out.fact("validation losses carry no autograd history", all(not e[1].requires_grad for e in val_losses))
         # ---- history
-        keys = {"loss"} | ({"accuracy"} if mode else set())
+        metric_names = (["accuracy"] if mode else []) + (["error_rate"] if mode and sp.get("metric_callbacks") else [])
+        keys = {"loss"} | set(metric_names)
         if sp["val"]:
-            keys |= {"val_loss"} | ({"val_accuracy"} if mode else set())
+            keys |= {"val_loss"} | {"val_" + m_ for m_ in metric_names}
         if sp["epochs"] == 0:
             out.fact("no history for zero epochs", history == {})
         else:
@@ -235,6 +243,11 @@ class Case:
                     true = [int(lab[i]) for i in range(n)]
             acc = sum(1 for a, b in zip(pred, true) if a == b) / n
             name = ("%s_accuracy" % prefix) if prefix else "accuracy"
+            if sp.get("metric_callbacks"):
+                ename = ("%s_error_rate" % prefix) if prefix else "error_rate"
+                eg = dict(r).get(ename)
+                out.fact("the step callback's metric is reported under its name%s" % (" with the val_ prefix" if prefix else ""),
+                         eg is not None and abs(float(eg) - (1 - acc)) < 1e-9, "metrics %s" % ([k_ for k_, _ in r],))
             got = dict(r).get(name)
             out.fact("step accuracy is the fraction of correct predictions (%s)" % mode, got is not None and abs(float(got) - acc) < 1e-9,
                      "reported %s, fraction of matches %s" % (got, acc))
@@ -305,6 +318,9 @@ def enumerate_specs(tier):
             specs.append({"epochs": 1, "batches": 1, "val": val, "evaluator": mode, "grad_on_entry": True, "test": False})
         if tier != "quick":
             specs.append({"epochs": 2, "batches": 1, "val": True, "evaluator": mode, "grad_on_entry": True, "test": True})
+    for mode, val in (("binary", True), ("multi-class", False)) + ((("categorical", True),) if tier != "quick" else ()):
+        specs.append({"epochs": 1 if val else 2, "batches": 1, "val": val, "evaluator": mode, "grad_on_entry": True, "test": False,
+                      "metric_callbacks": True})
     return specs
 
 
@@ -319,7 +335,7 @@ def main(tier, seed):
     return runner.finish(
         PROP, tier, seed, results, t0,
         bounds={"epochs": "0-2", "train batches": "1-2 of 2 samples", "validation": "absent / one batch",
-                "evaluator": [None, "binary", "multi-class", "categorical"],
+                "evaluator": [None, "binary", "multi-class", "categorical", "with user metrics from epoch/step callbacks"],
                 "model": "Sequential(Linear(2,1|2), BatchNorm1d) with symbolic parameters; SGD lr=0.1; MSELoss / CrossEntropyLoss"},
         assumptions=["floats are reals", "the progress bar (pkbar) is stubbed", "optimizer.step/zero_grad, the loss function, "
                      "Evaluator.step and model.forward are wrapped from outside to log calls, module modes and the gradient mode",
